@@ -349,7 +349,35 @@ def run(tier, t0):
                         res.violation('C14.4', 'C14.4|reason-arg|%s' % c.split('::')[-1], f, t.get('line'), 'ExceptionInfo.reason is %s, not `reason`' % a_reason[:160])
                     if not re.match(r'^\(<?[\w:<> ]*Into[\w:<> ]*>?::into \(?\*?\s*address\)?\)$', a_addr):
                         res.violation('C14.4', 'C14.4|address-arg|%s' % c.split('::')[-1], f, t.get('line'), 'ExceptionInfo.address is %s, not `address.into()`' % a_addr[:160])
-    res.rule('C14.4', n4, floor=6, note='crash address: parameter gating, 32-bit truncation by pointer width, ExceptionInfo fed from get_crash_reason / get_crash_address(os, cpu)')
+    # parameter gating of the Windows crash reason: exception_information[k] is read only where the record declares
+    # at least k + 1 parameters (an undeclared slot holds whatever bytes the writer left there)
+    fw = [f for f in md.fns if f.qual.endswith('CrashReason::from_windows_exception')]
+    if len(fw) != 1:
+        res.error('C14.4', 'CrashReason::from_windows_exception not found')
+    else:
+        g = fw[0]
+        seen = 0
+        for b in sorted(g.reach):
+            t = g.blocks[b]['t']
+            if t['k'] == 'assert' and t.get('ak') == 'bounds' and show(g.expand(g.operand_tree(t['len']))) == '15':
+                ix = g.expand(g.operand_tree(t['idx']))
+                n4 += 1
+                seen += 1
+                if ix[0] != 'int':
+                    res.violation('C14.4', 'C14.4|reason-param|dynamic', g, t.get('line'), 'exception_information is indexed by %s' % show(ix)[:80])
+                    continue
+                k = ix[1]
+                ok = False
+                for rel, gd, sc in panics.dominating_facts(g, b):
+                    if rel[0] in ('le', 'lt') and show(rel[2]) == 'record.number_parameters' and rel[1][0] == 'int':
+                        need = rel[1][1] if rel[0] == 'le' else rel[1][1] + 1
+                        if need >= k + 1:
+                            ok = True
+                if not ok:
+                    res.violation('C14.4', 'C14.4|reason-param|%d' % k, g, t.get('line'), 'the Windows crash reason reads exception_information[%d] without the record declaring at least %d parameters' % (k, k + 1))
+        if seen < 3:
+            res.error('C14.4', 'expected at least 3 parameter reads in from_windows_exception, found %d' % seen)
+    res.rule('C14.4', n4, floor=10, note='crash address: parameter gating, 32-bit truncation by pointer width, ExceptionInfo fed from get_crash_reason / get_crash_address(os, cpu)')
 
     # ---- C14.5 process id, times
     n5 = 0
